@@ -29,7 +29,8 @@ Inductive place :=
 | PIdx (p : place) (i : nat)
 | PSlice (p : place) (lo len : nat)
 | POut (p : place)
-| PGet (p : place) (i : nat).
+| PGet (p : place) (i : nat)
+| PCells (p : place) (lo len : nat).       (* a run of blocks of an InOutBuf<Block> *)
 
 Inductive val :=
 | VUnit
@@ -51,6 +52,7 @@ Inductive val :=
 | VOpt (o : option val)
 | VRange (lo hi : option nat)
 | VIter (ps : list place) (lo n : nat)
+| VGroups (q : place) (w n : nat)          (* `blocks.into_chunks()`: n groups of w blocks of the InOutBuf at q *)
 | VChunks (q : place) (cs n total : nat)   (* `q.chunks_exact_mut(cs)`: n whole chunks of a slice of length total *)
 | VFmt (out : list string).
 
@@ -97,6 +99,7 @@ Definition ndiv (a b : nat) : nat := a / b.      (* kept folded on symbolic leng
 Definition splice (lo len : nat) (s b : list N) : list N := firstn lo b ++ s ++ skipn (lo + len) b.
 
 Definition dummy_cell : cell := mkcell false [] [].
+Definition csplice (lo len : nat) (s b : list cell) : list cell := firstn lo b ++ s ++ skipn (lo + len) b.
 
 (* ---- places ---------------------------------------------------------------------------------- *)
 Fixpoint rd (e : env) (p : place) : option val :=
@@ -125,6 +128,11 @@ Fixpoint rd (e : env) (p : place) : option val :=
       match rd e p with
       | Some (VCells cs) => if in_range i (length cs) then Some (VCell (nth i cs dummy_cell)) else None
       | Some (VCell c) => Some (VCellB c i)
+      | _ => None
+      end
+  | PCells p lo len =>
+      match rd e p with
+      | Some (VCells cs) => if fits lo len (length cs) then Some (VCells (firstn len (skipn lo cs))) else None
       | _ => None
       end
   end.
@@ -159,6 +167,12 @@ Fixpoint wr (e : env) (p : place) (v : val) : option env :=
   | PGet p i =>
       match rd e p, v with
       | Some (VCells cs), VCell c => if in_range i (length cs) then wr e p (VCells (upd_nth i c cs)) else None
+      | _, _ => None
+      end
+  | PCells p lo len =>
+      match rd e p, v with
+      | Some (VCells cs), VCells s =>
+          if fits lo len (length cs) && len_eq (length s) len then wr e p (VCells (csplice lo len s cs)) else None
       | _, _ => None
       end
   end.
@@ -382,6 +396,8 @@ Definition iter_item (ps : list place) (i : nat) : val :=
   | _ => VTuple (pmap (fun q => VRef (PIdx q i)) ps)
   end.
 
+Definition cell_item (q : place) (i : nat) : val := VRef (PGet q i).
+Definition group_item (q : place) (w : nat) (i : nat) : val := VRef (PCells q (i * w) w).
 Definition chunk_item (q : place) (cs : nat) (i : nat) : val := VRef (PSlice q (i * cs) cs).
 
 Definition arg_name (k : nat) : string :=
@@ -481,6 +497,8 @@ Section Interp.
             match v, par with
             | VBlk b, false => Some (VBlk (f b))
             | VBlks l, true => Some (VBlks (map f l))
+            | VCell c, false => Some (VCell (wr_out c (f (rd_in c))))                       (* an InOut block  *)
+            | VCells cs, true => Some (VCells (map2 wr_out cs (map f (map rd_in cs))))      (* InOut ParBlocks *)
             | _, _ => None
             end in
           match arg with
@@ -727,9 +745,16 @@ Section Interp.
                   for_each (seq a (b - a)) (LF p body VNat) e
               | Some (VIter ps lo n) =>
                   for_each (seq lo n) (LF p body (iter_item ps)) e
+              | Some (VGroups q w n) => for_each (seq 0 n) (LF p body (group_item q w)) e
+              | Some (VCells cs) =>                             (* `for block in blocks` over an InOutBuf<Block> *)
+                  match as_place e r with
+                  | Some q => for_each (seq 0 (length cs)) (LF p body (cell_item q)) e
+                  | None => None
+                  end
               | Some (VRef pc) =>                               (* `for chunk in &mut chunks` *)
                   match rd e pc with
                   | Some (VChunks q cs n _) => for_each (seq 0 n) (LF p body (chunk_item q cs)) e
+                  | Some (VCells cs) => for_each (seq 0 (length cs)) (LF p body (cell_item pc)) e
                   | _ => None
                   end
               | _ => None
@@ -821,6 +846,21 @@ Section Interp.
                         | _, _ => None
                         end
                     | _, _ => None
+                    end
+                  else if m =s "into_chunks" then
+                    (* InOutBuf<Block>::into_chunks::<N>(): the chunk size N is fixed by type inference (the backend's
+                       ParBlocksSize in cts/src/lib.rs); the context supplies it as the constant "into_chunks::N" *)
+                    match as_place e r, rs, lookup "into_chunks::N" (consts C) with
+                    | Some q, [], Some (VNat w) =>
+                        match rd e q with
+                        | Some (VCells cs) =>
+                            if in_range 0 w then
+                              let n := ndiv (length cs) w in
+                              Some (Norm e (RV (VTuple [VGroups q w n; VRef (PCells q (n * w) (length cs - n * w))])))
+                            else None
+                        | _ => None
+                        end
+                    | _, _, _ => None
                     end
                   else if m =s "into_remainder" then
                     match as_data e r, rs with
